@@ -227,6 +227,19 @@ fn case1<T: Elem>(case: u64, args: &Args, ev: &mut Ev) {
         spec.dynamic = true;
     }
     let individual = matches!(&spec.strat, Strat1::Spline { boundary: Bound::Individual(_), .. });
+    // now and then the axis is invalid (a repeated knot, a swapped pair, a NaN): whether it is
+    // rejected must not depend on how it is stored either
+    if case % 10 == 7 {
+        let mut v = spec.axis();
+        let k = rng.below(v.len() - 1);
+        match rng.below(3) {
+            0 => v[k + 1] = v[k],
+            1 => v.swap(k, k + 1),
+            _ => v[k] = T::nan(),
+        }
+        spec.x = Some(Array1::from(v));
+        ev.add("invalid_axis_cases", 1);
+    }
     let x = spec.axis();
     let plan = make_plan(&mut rng, &x, oor);
     let replay = spec1_json(&spec);
@@ -242,6 +255,8 @@ fn case1<T: Elem>(case: u64, args: &Args, ev: &mut Ev) {
         ("data-layout", Box::new(move |s, r| { s.data_lay = Layout::random(r, nd); Variation { query_layouts: false, buffer_layouts: false } })),
         ("data-F-order", Box::new(move |s, _| { s.data_lay = Layout::f(nd); Variation { query_layouts: false, buffer_layouts: false } })),
         ("x-layout", Box::new(|s, r| { s.x_lay = Layout::random(r, 1); Variation { query_layouts: false, buffer_layouts: false } })),
+        ("x-reversed-contiguous", Box::new(|s, _| { s.x_lay = Layout::reversed(1); Variation { query_layouts: false, buffer_layouts: false } })),
+        ("x-reversed-contiguous-view", Box::new(|s, _| { s.x_lay = Layout::reversed(1); s.sto = StoCombo::VV; Variation { query_layouts: false, buffer_layouts: false } })),
         ("query-layout", Box::new(|_, _| Variation { query_layouts: true, buffer_layouts: false })),
         ("buffer-layout", Box::new(|_, _| Variation { query_layouts: false, buffer_layouts: true })),
         ("storage-view", Box::new(|s, _| { s.sto = StoCombo::VV; Variation { query_layouts: false, buffer_layouts: false } })),
